@@ -118,7 +118,10 @@ class TexttableCompuMethod(CompuMethod):
         odxraise(f"Texttable compu method could not decode '{internal_value!r}'.", EncodeError)
 
     def is_valid_physical_value(self, physical_value: AtomicOdxType) -> bool:
-        if self._compu_physical_default_value is not None:
+        if not self.physical_type.isinstance(physical_value):
+            return False
+
+        if self._compu_internal_default_value is not None:
             return True
 
         scales = []
@@ -130,7 +133,10 @@ class TexttableCompuMethod(CompuMethod):
                    if scale.compu_const is not None)
 
     def is_valid_internal_value(self, internal_value: AtomicOdxType) -> bool:
-        if self._compu_internal_default_value is not None:
+        if not self.internal_type.isinstance(internal_value):
+            return False
+
+        if self._compu_physical_default_value is not None:
             return True
 
         scales = []
